@@ -447,7 +447,7 @@ func Check(opt Options, writeBaseline bool) int {
 		p := replayFile(opt, vi, rr)
 		suffix := " no-failing-input-found"
 		if !opt.NoReplay && vi.Obl != nil && vi.Obl.Model != nil {
-			if confirmed := tryReplay(opt, filepath.Join(opt.Verif, p)); confirmed {
+			if confirmed := tryReplay(opt, filepath.Join(opt.Verif, p), vi.Obl.worstQ, nil); confirmed {
 				suffix = ""
 			}
 		}
